@@ -28,6 +28,7 @@ impl Rng {
     pub fn range(&mut self, lo: i64, hi: i64) -> i64 { lo + (self.next() % ((hi - lo + 1) as u64)) as i64 }
     pub fn chance(&mut self, num: u32, den: u32) -> bool { (self.next() % den as u64) < num as u64 }
     pub fn pick<'a, T>(&mut self, xs: &'a [T]) -> &'a T { &xs[self.below(xs.len())] }
+    pub fn pick_str(&mut self, xs: &[&'static str]) -> &'static str { xs[self.below(xs.len())] }
     pub fn unit_f64(&mut self) -> f64 { (self.next() >> 11) as f64 / (1u64 << 53) as f64 }
     pub fn shuffle<T>(&mut self, xs: &mut [T]) {
         for i in (1..xs.len()).rev() { let j = self.below(i + 1); xs.swap(i, j); }
